@@ -1001,4 +1001,348 @@ theorem mergeOpt_eq_at_once (thr : Int) (ts : List (Tile K)) (ps : List (Option 
 example : [none, some (tileStore 0 tA), none, some (tileStore 0 tB)].filterMap id = [tA, tB].map (tileStore 0) ∧
     2 ≤ [none, some (tileStore 0 tA), none, some (tileStore 0 tB)].length := ⟨rfl, by decide⟩
 
+/-! # third layer: algebra of one submission, monotonicity, bounds, no-op submissions, schedule independence -/
+
+/-- Resubmitting the same array with the same rotation changes nothing: scores, identifiers and table are
+*equal* to those after the first submission (`__call__` is idempotent). -/
+theorem submit_idempotent (s : State K) (a : Arr Int) (k : K) :
+    submit (submit s a k) a k = submit s a k := by
+  obtain ⟨hlk, _, _⟩ := setdefault_spec s.table k
+  have gen : ∀ (t : Table K) (i : Nat), lookup k t = some i → setdefault t k = (t, i) := by
+    intro t i h; unfold setdefault; rw [h]
+  have hsd : setdefault (setdefault s.table k).1 k = ((setdefault s.table k).1, (setdefault s.table k).2) :=
+    gen _ _ hlk
+  have e : ∀ (x y : State K), x.scores = y.scores → x.rots = y.rots → x.table = y.table → x = y := by
+    intro x y h1 h2 h3; cases x; cases y; simp_all
+  have sc : ∀ (t : State K) (b : Arr Int) (kk : K), (submit t b kk).scores = Arr.ofFn t.scores.shape
+      (fun idx => if b.getD idx 0 > t.scores.getD idx 0 then b.getD idx 0 else t.scores.getD idx 0) := fun _ _ _ => rfl
+  have rt : ∀ (t : State K) (b : Arr Int) (kk : K), (submit t b kk).rots = Arr.ofFn t.scores.shape
+      (fun idx => if b.getD idx 0 > t.scores.getD idx 0 then ((setdefault t.table kk).2 : Int) else t.rots.getD idx 0) :=
+    fun _ _ _ => rfl
+  apply e
+  · rw [sc (submit s a k), submit_shape, sc s]
+    apply Arr.ofFn_congr
+    intro idx hin
+    rw [Arr.getD_ofFn _ _ _ _ hin]
+    split <;> (try split) <;> omega
+  · rw [rt (submit s a k), submit_shape, rt s]
+    apply Arr.ofFn_congr
+    intro idx hin
+    rw [submit_scores_getD _ _ _ _ hin, Arr.getD_ofFn _ _ _ _ hin]
+    split
+    · omega
+    · rfl
+  · rw [submit_table, submit_table, hsd]
+
+/-- Two submissions commute on the score map: the arrays after `a` then `b` and after `b` then `a` are equal
+(whatever the rotations and the state they are submitted to). -/
+theorem submit_comm_scores (s : State K) (a b : Arr Int) (k k' : K) :
+    (submit (submit s a k) b k').scores = (submit (submit s b k') a k).scores := by
+  have sc : ∀ (t : State K) (b : Arr Int) (kk : K), (submit t b kk).scores = Arr.ofFn t.scores.shape
+      (fun idx => if b.getD idx 0 > t.scores.getD idx 0 then b.getD idx 0 else t.scores.getD idx 0) := fun _ _ _ => rfl
+  rw [sc (submit s a k), sc (submit s b k'), submit_shape, submit_shape]
+  apply Arr.ofFn_congr
+  intro idx hin
+  rw [submit_scores_getD _ _ _ _ hin, submit_scores_getD _ _ _ _ hin]
+  split <;> split <;> omega
+
+/-- The identifier map after two submissions, exactly: the second submission's identifier where it is strictly
+above both the old map and the first array, else the first one's where that was strictly above the old map, else
+the old identifier.  In particular on a tie between the two arrays the *first submitted* rotation stays. -/
+theorem submit_two_rots (s : State K) (a b : Arr Int) (k k' : K) (idx : List Nat)
+    (hin : inShape s.scores.shape idx = true) :
+    (submit (submit s a k) b k').rots.getD idx 0 =
+      if b.getD idx 0 > max (s.scores.getD idx 0) (a.getD idx 0) then ((setdefault (setdefault s.table k).1 k').2 : Int)
+      else if a.getD idx 0 > s.scores.getD idx 0 then ((setdefault s.table k).2 : Int)
+      else s.rots.getD idx 0 := by
+  rw [submit_rots_getD _ _ _ _ (by exact hin), submit_scores_getD _ _ _ _ hin, submit_rots_getD _ _ _ _ hin, submit_table]
+
+/-- ties: when both arrays hold the same value at a voxel and it improves the map, the identifier of the first
+submitted rotation is stored, in either order of submission -/
+theorem submit_tie_first_wins (s : State K) (a b : Arr Int) (k k' : K) (idx : List Nat)
+    (hin : inShape s.scores.shape idx = true) (htie : a.getD idx 0 = b.getD idx 0)
+    (himp : a.getD idx 0 > s.scores.getD idx 0) :
+    (submit (submit s a k) b k').rots.getD idx 0 = ((setdefault s.table k).2 : Int) ∧
+    (submit (submit s b k') a k).rots.getD idx 0 = ((setdefault s.table k').2 : Int) := by
+  constructor
+  · rw [submit_two_rots _ _ _ _ _ _ hin, if_neg (by omega), if_pos himp]
+  · rw [submit_two_rots _ _ _ _ _ _ hin, if_neg (by omega), if_pos (by omega)]
+
+example : inShape (run [2] 0 ([] : List (Arr Int × String))).scores.shape [0] = true ∧ exA.getD [0] 0 = exB.getD [0] 0 ∧
+    exA.getD [0] 0 > (run [2] 0 ([] : List (Arr Int × String))).scores.getD [0] 0 := by decide
+
+/-- One submission never decreases the map at any voxel, and the new value is the old one or the submitted one. -/
+theorem submit_monotone (s : State K) (a : Arr Int) (k : K) (idx : List Nat)
+    (hin : inShape s.scores.shape idx = true) :
+    s.scores.getD idx 0 ≤ (submit s a k).scores.getD idx 0 ∧ a.getD idx 0 ≤ (submit s a k).scores.getD idx 0 ∧
+    ((submit s a k).scores.getD idx 0 = s.scores.getD idx 0 ∨ (submit s a k).scores.getD idx 0 = a.getD idx 0) := by
+  rw [submit_scores_getD _ _ _ _ hin]; omega
+
+/-- Monotonicity: appending any further submissions never decreases the aggregated map at any voxel. -/
+theorem scores_monotone_append (shape : List Nat) (thr : Int) (h h' : List (Arr Int × K)) (idx : List Nat)
+    (hin : inShape shape idx = true) :
+    (run shape thr h).scores.getD idx 0 ≤ (run shape thr (h ++ h')).scores.getD idx 0 := by
+  rw [scores_eq_max_threshold _ _ _ _ hin, scores_eq_max_threshold _ _ _ _ hin]
+  simp only [valsAt, List.map_append]
+  rw [specMax_append]
+  exact le_specMax _ _
+
+/-- Upper bound: the aggregated value is at most any bound of the threshold and of all submitted values at that
+voxel (so it is at most `max(threshold, all submitted values)`), and at least the threshold. -/
+theorem scores_upper_bound (shape : List Nat) (thr m : Int) (h : List (Arr Int × K)) (idx : List Nat)
+    (hin : inShape shape idx = true) (hthr : thr ≤ m) (hall : ∀ ak ∈ h, ak.1.getD idx 0 ≤ m) :
+    thr ≤ (run shape thr h).scores.getD idx 0 ∧ (run shape thr h).scores.getD idx 0 ≤ m := by
+  rw [scores_eq_max_threshold _ _ _ _ hin]
+  refine ⟨le_specMax _ _, ?_⟩
+  rcases specMax_eq_or_mem thr (valsAt h idx) with e | e
+  · omega
+  · obtain ⟨ak, hak, e'⟩ := List.mem_map.mp e
+    have := hall ak hak
+    omega
+
+example : (0 : Int) ≤ 7 ∧ ∀ ak ∈ [(exA, "r0"), (exC, "r1")], ak.1.getD [0] 0 ≤ 7 := by decide
+
+/-- Submitting an array that is nowhere above the current map changes nothing at any voxel: neither the score nor
+the stored identifier (the table only gains the rotation if it is new). -/
+theorem submit_dominated_noop (s : State K) (a : Arr Int) (k : K)
+    (hdom : ∀ idx, inShape s.scores.shape idx = true → a.getD idx 0 ≤ s.scores.getD idx 0)
+    (idx : List Nat) (hin : inShape s.scores.shape idx = true) :
+    (submit s a k).scores.getD idx 0 = s.scores.getD idx 0 ∧ (submit s a k).rots.getD idx 0 = s.rots.getD idx 0 ∧
+    (∀ k' i, lookup k' s.table = some i → lookup k' (submit s a k).table = some i) := by
+  have := hdom idx hin
+  refine ⟨?_, ?_, (setdefault_spec s.table k).2.1⟩
+  · rw [submit_scores_getD _ _ _ _ hin]; omega
+  · rw [submit_rots_getD _ _ _ _ hin, if_neg (by omega)]
+
+example : ∀ idx, inShape (run [2] 0 [(exC, "r0")]).scores.shape idx = true →
+    exB.getD idx 0 ≤ (run [2] 0 [(exC, "r0")]).scores.getD idx 0 := by
+  intro idx h
+  have : idx = [0] ∨ idx = [1] := by
+    match idx, h with
+    | [0], _ => exact Or.inl rfl
+    | [1], _ => exact Or.inr rfl
+  rcases this with rfl | rfl <;> decide
+
+/-- Under the lock the final map does not depend on the schedule: two complete schedules of the same work give the
+same value at every voxel. -/
+theorem concurrent_schedule_independent (shape : List Nat) (thr : Int) (work : List (List (Arr Int × K)))
+    (sched sched' : List Nat)
+    (hdone : ∀ j, ((runSched true (sysInit shape thr work) sched).procs j).todo = [])
+    (hdone' : ∀ j, ((runSched true (sysInit shape thr work) sched').procs j).todo = [])
+    (idx : List Nat) (hin : inShape shape idx = true) :
+    (runSched true (sysInit shape thr work) sched).shared.scores.getD idx 0 =
+      (runSched true (sysInit shape thr work) sched').shared.scores.getD idx 0 := by
+  rw [(concurrent_no_lost_update shape thr work sched hdone).2 idx hin,
+    (concurrent_no_lost_update shape thr work sched' hdone').2 idx hin]
+
+
+/-- Resubmitting any earlier submission (same array, same rotation) at any later time changes nothing: the table
+is the same and every voxel keeps its score and its identifier. -/
+theorem resubmit_earlier_noop (shape : List Nat) (thr : Int) (h : List (Arr Int × K)) (a : Arr Int) (k : K)
+    (hmem : (a, k) ∈ h) :
+    (run shape thr (h ++ [(a, k)])).table = (run shape thr h).table ∧
+    ∀ idx, inShape shape idx = true →
+      (run shape thr (h ++ [(a, k)])).scores.getD idx 0 = (run shape thr h).scores.getD idx 0 ∧
+      (run shape thr (h ++ [(a, k)])).rots.getD idx 0 = (run shape thr h).rots.getD idx 0 := by
+  rw [run_snoc]
+  have hsh := run_shape shape thr h
+  constructor
+  · rw [submit_table]
+    have hs : (lookup k (run shape thr h).table).isSome := ((inv_run shape thr h).keys k).mpr ⟨a, hmem⟩
+    obtain ⟨i, hi⟩ := Option.isSome_iff_exists.mp hs
+    unfold setdefault; rw [hi]
+  · intro idx hin
+    have hin' : inShape (run shape thr h).scores.shape idx = true := by rw [hsh]; exact hin
+    have hle : a.getD idx 0 ≤ (run shape thr h).scores.getD idx 0 := by
+      rw [scores_eq_max_threshold _ _ _ _ hin]
+      exact mem_le_specMax (List.mem_map.mpr ⟨(a, k), hmem, rfl⟩)
+    constructor
+    · rw [submit_scores_getD _ _ _ _ hin']; omega
+    · rw [submit_rots_getD _ _ _ _ hin', if_neg (by omega)]
+
+example : (exA, "r0") ∈ [(exA, "r0"), (exC, "r1")] := List.mem_cons_self
+
+/-- One pass of `merge`'s second loop with a partial result that is nowhere above the accumulated map (e.g. one
+holding only the threshold) leaves every voxel of both output arrays as it was. -/
+theorem mergeStep_dominated_noop (out : List Nat) (new : Table K) (acc : Arr Int × Arr Int) (S : Store K)
+    (p : List Nat) (hin : inShape out p = true)
+    (hdom : ∀ q, localIdx S.offset S.scores.shape p = some q → S.scores.getD q 0 ≤ acc.1.getD p 0) :
+    (mergeStep out new acc S).1.getD p 0 = acc.1.getD p 0 ∧ (mergeStep out new acc S).2.getD p 0 = acc.2.getD p 0 := by
+  simp only [mergeStep]
+  rw [Arr.getD_ofFn _ _ _ _ hin, Arr.getD_ofFn _ _ _ _ hin]
+  cases hl : localIdx S.offset S.scores.shape p with
+  | none => exact ⟨rfl, rfl⟩
+  | some q =>
+    have := hdom q hl
+    simp only
+    rw [if_neg (by omega), if_neg (by omega)]
+    exact ⟨rfl, rfl⟩
+
+/-- what a correct aggregate holds at an absolute voxel: the maximum of everything submitted there (the threshold
+outside its box) -/
+theorem represents_valOr {thr : Int} {T : Store K} {us : List (Tile K)} (RT : Represents thr T us) (p : List Nat) :
+    T.valOr thr p = specMax thr (allVals us p) := by
+  simp only [Store.valOr, Store.valAt?]
+  cases hl : localIdx T.offset T.scores.shape p with
+  | none => simp [RT.outside p hl, specMax_nil]
+  | some q => simpa using (RT.cell p q hl).1
+
+/-- Merging with a partial result that never received a submission (its map holds only the threshold) is the
+identity on the values: at every absolute voxel the merged result holds what the other operand held. -/
+theorem merge_empty_partial_identity {thr : Int} {d : Nat} {A : Store K} {as : List (Tile K)}
+    (RA : Represents thr A as) (hA : A.offset.length = d ∧ A.scores.shape.length = d)
+    (off shp : List Nat) (he : off.length = d ∧ shp.length = d)
+    {M M' : Store K} (hM : merge thr [A, tileStore thr ⟨off, shp, []⟩] = some M)
+    (hM' : merge thr [tileStore thr ⟨off, shp, []⟩, A] = some M') (p : List Nat) :
+    M.valOr thr p = A.valOr thr p ∧ M'.valOr thr p = A.valOr thr p := by
+  have RE := tileStore_represents thr (⟨off, shp, []⟩ : Tile K)
+  have hE : (tileStore thr (⟨off, shp, []⟩ : Tile K)).offset.length = d ∧
+      (tileStore thr (⟨off, shp, []⟩ : Tile K)).scores.shape.length = d := by
+    simp only [tileStore, State.toStore]
+    rw [run_shape]; exact he
+  have tv : tileVals (⟨off, shp, []⟩ : Tile K) p = [] := by
+    simp only [tileVals]; split <;> rfl
+  have R1 : Represents thr M (as ++ [⟨off, shp, []⟩]) := by
+    have := merge_represents [(A, as), (tileStore thr (⟨off, shp, []⟩ : Tile K), [⟨off, shp, []⟩])] (by
+      intro pr hpr
+      rcases List.mem_cons.mp hpr with rfl | hpr
+      · exact RA
+      · rcases List.mem_cons.mp hpr with rfl | hpr
+        · exact RE
+        · cases hpr) (d := d) (by
+      intro S hS
+      rcases List.mem_cons.mp hS with rfl | hS
+      · exact hA
+      · rcases List.mem_cons.mp hS with rfl | hS
+        · exact hE
+        · cases hS) (M := M) hM
+    simpa using this
+  have R2 : Represents thr M' ([⟨off, shp, []⟩] ++ as) := by
+    have := merge_represents [(tileStore thr (⟨off, shp, []⟩ : Tile K), [⟨off, shp, []⟩]), (A, as)] (by
+      intro pr hpr
+      rcases List.mem_cons.mp hpr with rfl | hpr
+      · exact RE
+      · rcases List.mem_cons.mp hpr with rfl | hpr
+        · exact RA
+        · cases hpr) (d := d) (by
+      intro S hS
+      rcases List.mem_cons.mp hS with rfl | hS
+      · exact hE
+      · rcases List.mem_cons.mp hS with rfl | hS
+        · exact hA
+        · cases hS) (M := M') hM'
+    simpa using this
+  rw [represents_valOr R1, represents_valOr R2, represents_valOr RA]
+  simp [allVals, tv]
+
+example : ∃ M, merge 0 [tileStore 0 tA, tileStore 0 (⟨[1], [2], []⟩ : Tile String)] = some M ∧
+    M.scores.toList = [3, 1, 0] := ⟨_, rfl, by decide⟩
+
+/-- Re-indexing of rotation identifiers in `merge` is injective on every store: two different identifiers of a
+store are sent by its `lookup_table` to two different identifiers of the merged table. -/
+theorem merge_remap_injective {ss : List (Store K)} {S : Store K} (hS : S ∈ ss) (ok : TableOK S.table)
+    {k k' : K} {i i' : Nat} (hk : lookup k S.table = some i) (hk' : lookup k' S.table = some i')
+    (heq : lutGet (lookupTable S.table (newTable ss)) (i : Int) = lutGet (lookupTable S.table (newTable ss)) (i' : Int)) :
+    i = i' ∧ k = k' := by
+  have h1 := (merge_remap_decode hS ok hk).1
+  have h2 := (merge_remap_decode hS ok hk').1
+  rw [heq, h2] at h1
+  have e : k' = k := Option.some.inj h1
+  subst e
+  rw [hk] at hk'
+  exact ⟨Option.some.inj hk', rfl⟩
+
+
+/-- Associativity at full strength, `n` groups: merge each group of partial results on its own, then merge the `n`
+group results — the outcome is a correct aggregate of all tiles and holds at every absolute voxel the same value
+as one `merge` call over all tiles of all groups. -/
+theorem merge_n_groups {thr : Int} {d : Nat} (pairs : List (Store K × List (Tile K)))
+    (hg : ∀ pr ∈ pairs, merge thr (pr.2.map (tileStore thr)) = some pr.1)
+    (hdt : ∀ pr ∈ pairs, ∀ t ∈ pr.2, t.offset.length = d ∧ t.shape.length = d)
+    (hd : SameDim d (pairs.map Prod.fst))
+    {M N : Store K} (hM : merge thr (pairs.map Prod.fst) = some M)
+    (hN : merge thr ((pairs.map Prod.snd).flatten.map (tileStore thr)) = some N) (p : List Nat) :
+    Represents thr M (pairs.map Prod.snd).flatten ∧ M.valOr thr p = N.valOr thr p := by
+  have hrep : ∀ pr ∈ pairs, Represents thr pr.1 pr.2 :=
+    fun pr hpr => merge_tiles_represents pr.2 (hdt pr hpr) (hg pr hpr)
+  have R := merge_represents pairs hrep hd hM
+  have RN : Represents thr N (pairs.map Prod.snd).flatten := by
+    refine merge_tiles_represents (d := d) _ ?_ hN
+    intro t ht
+    obtain ⟨l, hl, htl⟩ := List.mem_flatten.mp ht
+    obtain ⟨pr, hpr, rfl⟩ := List.mem_map.mp hl
+    exact hdt pr hpr t htl
+  exact ⟨R, represents_valOr_eq (List.Perm.refl _) R RN p⟩
+
+example : (∀ pr ∈ [(tileStore 0 tA, [tA]), (tileStore 0 tB, [tB])], merge 0 (pr.2.map (tileStore 0)) = some pr.1) ∧
+    ∃ M, merge 0 ([(tileStore 0 tA, [tA]), (tileStore 0 tB, [tB])].map Prod.fst) = some M := by
+  refine ⟨?_, _, rfl⟩
+  intro pr hpr
+  rcases List.mem_cons.mp hpr with rfl | hpr
+  · rfl
+  · rcases List.mem_cons.mp hpr with rfl | hpr
+    · rfl
+    · cases hpr
+
+/-- Splitting a history: the aggregate of `h ++ h'` is, voxel by voxel, the larger of the aggregates of `h` and of
+`h'` (two analyzers of the same volume and threshold can be combined by an element-wise maximum). -/
+theorem scores_append_eq_max (shape : List Nat) (thr : Int) (h h' : List (Arr Int × K)) (idx : List Nat)
+    (hin : inShape shape idx = true) :
+    (run shape thr (h ++ h')).scores.getD idx 0 =
+      max ((run shape thr h).scores.getD idx 0) ((run shape thr h').scores.getD idx 0) := by
+  rw [scores_eq_max_threshold _ _ _ _ hin, scores_eq_max_threshold _ _ _ _ hin, scores_eq_max_threshold _ _ _ _ hin]
+  simp only [valsAt, List.map_append]
+  rw [specMax_append, max_specMax _ (le_specMax thr _)]
+
+/-- Raising the configured threshold: the aggregate for a threshold `thr' ≥ thr` is the aggregate for `thr` clipped
+from below at `thr'`; in particular it never decreases with the threshold. -/
+theorem scores_threshold_raise (shape : List Nat) (thr thr' : Int) (hle : thr ≤ thr') (h : List (Arr Int × K))
+    (idx : List Nat) (hin : inShape shape idx = true) :
+    (run shape thr' h).scores.getD idx 0 = max thr' ((run shape thr h).scores.getD idx 0) ∧
+    (run shape thr h).scores.getD idx 0 ≤ (run shape thr' h).scores.getD idx 0 := by
+  rw [scores_eq_max_threshold _ _ _ _ hin, scores_eq_max_threshold _ _ _ _ hin]
+  have := max_specMax (valsAt h idx) hle
+  omega
+
+
+/-- A voxel that holds a rotation identifier keeps one as submissions are appended: it never falls back to the
+'no rotation' marker. -/
+theorem marker_never_returns (shape : List Nat) (thr : Int) (h h' : List (Arr Int × K)) (idx : List Nat)
+    (hin : inShape shape idx = true) (hr : (run shape thr h).rots.getD idx 0 ≠ -1) :
+    (run shape thr (h ++ h')).rots.getD idx 0 ≠ -1 := by
+  intro e
+  apply hr
+  rw [untouched_marker _ _ _ _ hin] at e ⊢
+  intro x hx
+  apply e x
+  simp only [valsAt, List.map_append, List.mem_append]
+  exact Or.inl hx
+
+/-- Identifiers are never re-assigned: the rotation table after further submissions extends the earlier table
+(same rotations, same identifiers, new rotations appended). -/
+theorem table_prefix_append (shape : List Nat) (thr : Int) (h h' : List (Arr Int × K)) :
+    ∃ l, (run shape thr (h ++ h')).table = (run shape thr h).table ++ l := by
+  have sd : ∀ (t : Table K) (k : K), ∃ l, (setdefault t k).1 = t ++ l := by
+    intro t k
+    unfold setdefault
+    cases lookup k t with
+    | some i => exact ⟨[], by simp⟩
+    | none => exact ⟨[(k, t.length)], rfl⟩
+  have gen : ∀ (h' : List (Arr Int × K)) (s : State K), ∃ l, (runFrom s h').table = s.table ++ l := by
+    intro h'
+    induction h' with
+    | nil => intro s; exact ⟨[], by simp [runFrom]⟩
+    | cons x t ih =>
+      intro s
+      obtain ⟨l, hl⟩ := ih (submit s x.1 x.2)
+      obtain ⟨l0, hl0⟩ := sd s.table x.2
+      refine ⟨l0 ++ l, ?_⟩
+      have : runFrom s (x :: t) = runFrom (submit s x.1 x.2) t := rfl
+      rw [this, hl, submit_table, hl0, List.append_assoc]
+  have : run shape thr (h ++ h') = runFrom (run shape thr h) h' := by
+    simp [run, runFrom, List.foldl_append]
+  rw [this]
+  exact gen h' _
+
+
 end Pm.C04
